@@ -80,8 +80,13 @@ class SegmentAllocationTableAdapter(Adapter):
                 subpath_index = i
                 
                 continue_flag = True 
+                in_directory_run = False
                 while continue_flag:
                     if subpath_index >= size:
+                        if in_directory_run and len(links) > 0:
+                            # a directory area that ends with the last 
+                            # sector of the table
+                            add_to_sector_links(links, sector_links)
                         continue_flag = False
                         break
 
@@ -124,6 +129,7 @@ class SegmentAllocationTableAdapter(Adapter):
                     
                     dirty_flags[subpath_index] = True
                     links.append(subpath_index)
+                    in_directory_run = current_sector_is_directory
                     if not current_sector_is_directory:
                         subpath_index = value_current
                     else:
